@@ -606,7 +606,93 @@ const QTYPES: [QueryType; 4] = [
     QueryType::Wildcard,
 ];
 
+/// An alias that was repointed while its old record was still cached: the cache
+/// holds two CNAME records for one owner (it keeps records with different RDATA side
+/// by side).  Whichever of the two the resolver follows, the answer must be one
+/// well-formed chain: one alias per owner, each record owned by the previous
+/// record's target, only records of the final target after the chain.
+fn changed_alias_cases(acc: &mut JsonAcc) {
+    let p = GenParams::simple(1, NsStyle::InZoneGlue, 1);
+    let u = Arc::new(build(&p));
+    let (old, first, second, entry) = (dn("old.k."), dn("first.k."), dn("second.k."), dn("entry.k."));
+    for order in 0..2usize {
+        for with_entry in [false, true] {
+            for qtype in [QueryType::Record(RecordType::A), QueryType::Record(RecordType::TXT)] {
+                for mode in [ModeK::Local, ModeK::Recursive, ModeK::Forwarding] {
+                    let mut seed = vec![rr(&old, cname(&first), 300), rr(&old, cname(&second), 300)];
+                    if order == 1 {
+                        seed.reverse();
+                    }
+                    seed.push(rr(&first, final_data(rtype_of(qtype), 1), 300));
+                    seed.push(rr(&second, final_data(rtype_of(qtype), 2), 300));
+                    let start = if with_entry {
+                        seed.push(rr(&entry, cname(&old), 300));
+                        entry.clone()
+                    } else {
+                        old.clone()
+                    };
+                    let q = question(&start, qtype);
+                    let mut spec = base_spec(u.clone(), vec![Step::Seed(seed), Step::Ask(q.clone())]);
+                    spec.mode = match mode {
+                        ModeK::Local => Mode::Local,
+                        ModeK::Recursive => Mode::Recursive,
+                        ModeK::Forwarding => Mode::Forwarding(fwd_addr()),
+                    };
+                    spec.explore_orders = false;
+                    let res = run_once(&spec, &[]);
+                    acc.count("executions", 1);
+                    acc.hist("two cached aliases at one owner", 1);
+                    let mut problems: Vec<String> = Vec::new();
+                    match &res.asks[0].outcome {
+                        Outcome::Panic(m) => problems.push(format!("panicked: {m}")),
+                        Outcome::Err(_) => {}
+                        Outcome::Ok(r) => {
+                            let rrs = r.clone().rrs();
+                            let mut at = start.clone();
+                            let mut owners = BTreeSet::new();
+                            for x in &rrs {
+                                match &x.rtype_with_data {
+                                    RecordTypeWithData::CNAME { cname: t } => {
+                                        if x.name != at {
+                                            problems.push(format!("{} is not owned by {}", show_rr(x), show_name(&at)));
+                                        }
+                                        if !owners.insert(x.name.clone()) {
+                                            problems.push(format!("two aliases for {}", show_name(&x.name)));
+                                        }
+                                        at = t.clone();
+                                    }
+                                    _ => {
+                                        if x.name != at {
+                                            problems.push(format!("{} is not owned by the final target {}", show_rr(x), show_name(&at)));
+                                        }
+                                    }
+                                }
+                            }
+                        }
+                    }
+                    for m in problems {
+                        acc.violate(
+                            "chain-order",
+                            format!(
+                                "cache holds two aliases for old.k. (order {order}, asked through entry.k.: {with_entry}) question {} {} mode {mode:?}: {m} :: outcome {}",
+                                show_name(&start),
+                                qtype,
+                                show_outcome(&res.asks[0].outcome)
+                            ),
+                            json!({"kind": "changed-alias"}),
+                            None,
+                        );
+                    }
+                }
+            }
+        }
+    }
+}
+
 fn run_slice(tier: Tier, item: usize, sub: usize, nsub: usize, acc: &mut JsonAcc) {
+    if item == 0 && sub == 0 {
+        changed_alias_cases(acc);
+    }
     let graphs = graphs_for_item(tier, item);
     for (gi, g) in graphs.iter().enumerate() {
         if gi % nsub != sub {
@@ -684,6 +770,20 @@ pub fn run(ctx: &Ctx) -> i32 {
 }
 
 fn replay_inner(ctx: &Ctx, v: &Value) -> i32 {
+    if v["kind"] == "changed-alias" {
+        let mut acc = JsonAcc::default();
+        changed_alias_cases(&mut acc);
+        for x in &acc.violations {
+            println!("  finding [{}]: {}", x.clause, x.summary);
+        }
+        return if acc.violations.is_empty() {
+            println!("replay: property holds on this case");
+            0
+        } else {
+            println!("VIOLATION property={} replay=(replayed case)", ctx.id);
+            1
+        };
+    }
     let (g, qtype, mode) = match graph_from_json(v) {
         Some(x) => x,
         None => return 2,
